@@ -1208,6 +1208,18 @@ def check_chunker_ranges(u):
         lo = ps.get("start_seq", ps.get("start"))
         hi = ps.get("end_seq", ps.get("end"))
         a, b = norm(args[1]), norm(args[2])
+        # the SELECT the rows come from must bound seq on BOTH sides by those parameters (or not at all: whole version)
+        from .lex import iter_string_literals
+        sel = [(p_, t_) for (p_, t_) in iter_string_literals(src) if o <= p_ < qo and re.search(r"\bSELECT\b", t_)]
+        if not sel:
+            raise LostAnchor("no SELECT text before ChunkedChanges::new site %d" % (k + 1))
+        seltext = sel[-1][1]
+        bt = re.search(r"\bseq\s+BETWEEN\s+:(\w+)\s+AND\s+:(\w+)", seltext, re.I)
+        seq_mentions = len(re.findall(r"\bseq\s*(?:BETWEEN|[<>=!]|IN\b|NOT\b)", seltext, re.I))
+        if (lo is None) != (hi is None) or (bt is None and seq_mentions > 0) or (bt is not None and seq_mentions != 1) \
+                or (bt is not None and (ps.get(bt.group(1)) != lo or ps.get(bt.group(2)) != hi or lo is None)):
+            failures.append((name, _line(src, sel[-1][0]), "the rows handed to the chunker are not selected with `seq BETWEEN <start> AND <end>` over the two bounds the chunker is given (a row outside the announced range would be sent inside it)"))
+            continue
         if lo is None and hi is None:
             # every row of the version is selected: the label must be the whole version
             if a != "CrsqlSeq(0)" or b != "last_seq":
@@ -1549,7 +1561,109 @@ def check_sub_select_only(u):
     return obligations, failures, samples
 
 
-CHECKS = {"sub_select_only": check_sub_select_only, "broadcast_delivery": check_broadcast_delivery, "updates_row_binding": check_updates_row_binding, "row_bindings": check_row_bindings, "feeds_fed": check_feeds_fed, "exists_binding": check_exists_binding, "seqmerge_params": check_seqmerge_params, "chunker_ranges": check_chunker_ranges, "persist_before_publish": check_persist_before_publish, "schema_reload": check_schema_reload, "cluster_id_fresh": check_cluster_id_fresh, "schema_ddl": check_schema_ddl, "schema_atomic": check_schema_atomic, "seq_range_guard": check_seq_range_guard, "exits_covered": check_exits_covered, "sub_lag_stops": check_sub_lag_stops, "single_snapshot": check_single_snapshot, "offer_loops": check_offer_loops, "speedy_prealloc": check_speedy_prealloc, "from_conn": check_from_conn, "sql_actor_scoping": check_sql_actor_scoping, "local_write_sequence": check_local_write_sequence, "insert_local_changes": check_insert_local_changes, "authz_layer": check_authz_layer, "readonly_guard": check_readonly_guard, "read_pool": check_read_pool}
+def check_last_id_published(u):
+    """C12: catch_up_sub decides whether it has caught up with the live feed by comparing the id it read from the change log with
+    `last_change_id_sent()`.  That is only sound if the matcher publishes the id of every change event right after handing the event to the
+    subscribers' channel — per change and before its transaction commits — so that the published id is never BEHIND an event already
+    broadcast.  Obligation on Matcher::handle_candidates: every `evt_tx.blocking_send(QueryEvent::Change(.., id))` is followed, in the same
+    block, by `last_change_tx.send(id)` with that very id, and that block lies before (and nested below) `tx.commit()`."""
+    file = u["file"]
+    src, msk, o, c = _fn_body(file, u["fn"], u.get("impl"))
+    body = msk[o:c]
+    obligations = ["every-broadcast-change-id-is-published-right-after-the-event", "published-before-the-matcher-transaction-commits"]
+    failures, samples = [], []
+    sends = [o + m.start() for m in re.finditer(r"\bevt_tx\s*\.\s*(?:blocking_send|send|try_send)\s*\(\s*QueryEvent\s*::\s*Change\s*\(", body)]
+    if not sends:
+        raise LostAnchor("%s: no evt_tx send of QueryEvent::Change" % u["fn"])
+    cms = [o + m.start() for m in re.finditer(r"\btx\s*\.\s*commit\s*\(\s*\)", body)]
+    if not cms:
+        raise LostAnchor("%s: no tx.commit()" % u["fn"])
+    for sp in sends:
+        # the commit of the transaction the event belongs to: the first one after the send
+        later = [p_ for p_ in cms if p_ > sp]
+        if not later:
+            raise Unsupported("change events are sent after the last tx.commit(): different protocol")
+        cpos = later[0]
+        po = msk.index("(", msk.index("Change", sp))
+        pc = match_delim(msk, po)
+        args = _split_top(src[po + 1:pc])
+        idv = args[-1].strip() if args else ""
+        if not re.fullmatch(r"[A-Za-z_]\w*", idv):
+            raise Unsupported("QueryEvent::Change id argument is not a plain variable: %r" % idv)
+        # innermost enclosing block of the send, and the end of the statement that contains the send
+        depth, k = 0, sp
+        while k > o:
+            k -= 1
+            if msk[k] == "}":
+                depth += 1
+            elif msk[k] == "{":
+                if depth == 0:
+                    break
+                depth -= 1
+        # the send may sit in the header of an `if … let Err(e) = send(..) { … }`: the enclosing block found above is then the block the `if` lives in
+        blk_open = k
+        blk_close = match_delim(msk, blk_open)
+        # end of the statement containing the send: skip to the end of its trailing block / semicolon at depth 0
+        j = pc
+        d = 0
+        while j < blk_close:
+            ch = msk[j]
+            if ch in "([{":
+                j = match_delim(msk, j)
+                if ch == "{" and d == 0:
+                    j += 1
+                    break
+            elif ch == ";" and d == 0:
+                j += 1
+                break
+            j += 1
+        after = msk[j:blk_close]
+        pm = re.search(r"\blast_change_tx\s*\.\s*send\s*\(\s*%s\s*\)" % re.escape(idv), after)
+        if not pm:
+            failures.append((obligations[0], _line(src, sp), "the id `%s` of a change event handed to the subscribers is not published (`last_change_tx.send(%s)`) in the same block right after it" % (idv, idv)))
+        else:
+            samples.append("%s:%d event with id `%s` sent, id published at line %d" % (file, _line(src, sp), idv, _line(src, j + pm.start())))
+            if j + pm.start() > cpos:
+                failures.append((obligations[1], _line(src, j + pm.start()), "the id is published after tx.commit()"))
+    return obligations, failures, samples
+
+
+def check_apply_trigger_waits(u):
+    """C10: a version whose last missing chunk has just been buffered is applied by the background applier only when it is TOLD so through
+    the bounded `tx_apply` channel — nothing re-creates that trigger later (the version now counts as held, so re-offers are refused and
+    sync no longer asks for it).  The trigger must therefore be handed over with a waiting send (`tx_apply.send(..).await`, in a spawned
+    task so the ingest loop is not blocked); a `try_send` drops it when the applier is behind, and the version is never applied."""
+    file = u["file"]
+    src, msk, o, c = _fn_body(file, u["fn"])
+    body = msk[o:c]
+    name = "apply-trigger-of-a-fully-buffered-version-is-sent-with-a-waiting-send"
+    obligations, failures, samples = [name], [], []
+    uses = [m for m in re.finditer(r"\btx_apply\b(\s*\(\s*\))?", body)]
+    if not uses:
+        raise LostAnchor("%s: tx_apply not used" % u["fn"])
+    waiting = 0
+    for m in uses:
+        rest = body[m.end():m.end() + 60]
+        at = o + m.start()
+        if re.match(r"\s*\.\s*try_send\s*\(", rest):
+            failures.append((name, _line(src, at), "the apply trigger is handed over with try_send: it is dropped when the applier's queue is full and nothing sends it again"))
+        ms = re.match(r"\s*\.\s*(send|send_timeout|blocking_send)\s*\(", rest)
+        if ms:
+            po = at + (m.end() - m.start()) + ms.end() - 1
+            pc = match_delim(msk, po)
+            if ms.group(1) == "send" and not re.match(r"\s*\.\s*await\b", msk[pc + 1:pc + 40]):
+                failures.append((name, _line(src, at), "the send future of the apply trigger is not awaited"))
+            elif ms.group(1) == "send_timeout":
+                failures.append((name, _line(src, at), "the apply trigger is sent with a timeout: it is dropped when the applier stays behind"))
+            else:
+                waiting += 1
+                samples.append("%s:%d tx_apply.%s(..) waits for room in the queue" % (file, _line(src, at), ms.group(1)))
+    if not failures and waiting == 0:
+        raise Unsupported("%s: how the apply trigger is handed to the applier was not recognised" % u["fn"])
+    return obligations, failures, samples
+
+
+CHECKS = {"apply_trigger_waits": check_apply_trigger_waits, "last_id_published": check_last_id_published, "sub_select_only": check_sub_select_only, "broadcast_delivery": check_broadcast_delivery, "updates_row_binding": check_updates_row_binding, "row_bindings": check_row_bindings, "feeds_fed": check_feeds_fed, "exists_binding": check_exists_binding, "seqmerge_params": check_seqmerge_params, "chunker_ranges": check_chunker_ranges, "persist_before_publish": check_persist_before_publish, "schema_reload": check_schema_reload, "cluster_id_fresh": check_cluster_id_fresh, "schema_ddl": check_schema_ddl, "schema_atomic": check_schema_atomic, "seq_range_guard": check_seq_range_guard, "exits_covered": check_exits_covered, "sub_lag_stops": check_sub_lag_stops, "single_snapshot": check_single_snapshot, "offer_loops": check_offer_loops, "speedy_prealloc": check_speedy_prealloc, "from_conn": check_from_conn, "sql_actor_scoping": check_sql_actor_scoping, "local_write_sequence": check_local_write_sequence, "insert_local_changes": check_insert_local_changes, "authz_layer": check_authz_layer, "readonly_guard": check_readonly_guard, "read_pool": check_read_pool}
 
 
 def run_unit(prop, u, tier, ctx, here):
